@@ -1904,7 +1904,7 @@ func patchCode(context *funcContext) { // {{{
 		case OP_JMP: // jump to jump optimization
 			distance := 0
 			count := 0 // avoiding infinite loops
-			for jmp := inst; opGetOpCode(jmp) == OP_JMP && count < 5; jmp = orig[pc+distance+1] {
+			for jmp := inst; opGetOpCode(jmp) == OP_JMP && count < 5; {
 				d := context.GetLabelPc(opGetArgSbx(jmp)) - pc
 				if d > opMaxArgSbx || d < -opMaxArgSbx {
 					if distance == 0 {
@@ -1914,6 +1914,11 @@ func patchCode(context *funcContext) { // {{{
 				}
 				distance = d
 				count++
+				next := pc + distance + 1
+				if next < 0 || next >= len(orig) {
+					break // the target is the end of the code: there is nothing to thread through
+				}
+				jmp = orig[next]
 			}
 			if distance == 0 {
 				context.Code.SetOpCode(pc, OP_NOP)
